@@ -71,8 +71,14 @@ def r15_1(ctx, R):
                     sites.append((bb, lhs, s["rv"]["op"], b.loc(bb, i)))
             t = b.term(bb)
             if t["k"] == "call" and t["func"]["k"] == "const" and "fn" in t["func"] and \
-                    re.search(r"core::num::<impl usize>::(checked_sub|unchecked_sub|strict_sub)$", t["func"]["fn"]["def"]):
-                sites.append((bb, fl.operand_expr(t["args"][0]), "checked_sub", b.loc(bb)))
+                    re.search(r"core::num::<impl usize>::(unchecked_sub|strict_sub)$", t["func"]["fn"]["def"]):
+                sites.append((bb, fl.operand_expr(t["args"][0]), "unchecked_sub", b.loc(bb)))
+            if t["k"] == "call" and t["func"]["k"] == "const" and "fn" in t["func"] and \
+                    re.search(r"core::option::Option::<.*>::(unwrap|expect|unwrap_unchecked)$", t["func"]["fn"]["def"]):
+                recv = fl.operand_expr(t["args"][0])
+                for c in expr_calls(recv):
+                    if re.search(r"core::num::<impl usize>::checked_sub$", c[1] or ""):
+                        sites.append((bb, c[2][0], "checked_sub().unwrap", b.loc(bb)))
         for bb, lhs, op, loc in sites:
             lv = fl.leaves(lhs)
             ps = {x[1] for x in lv if x[0] == "param" and x[1] in uparams}
